@@ -207,6 +207,7 @@ class PDPEnv(RL4COEnvBase):
         if not self.force_start_at_depot:
             actions = torch.cat((torch.zeros_like(actions[:, 0:1]), actions), dim=-1)
 
+        assert actions.size(1) == td["locs"].size(-2), "Not visiting all nodes: wrong tour length"
         assert (
             (torch.arange(actions.size(1), out=actions.data.new()))
             .view(1, -1)
